@@ -46,36 +46,44 @@ theorem amountOf_onlyBond {c : Cfg} {amt : Coins} (h : onlyBond c amt = true) {d
     have hne : ¬ d' = d := fun he => hd (he ▸ h.1)
     simp [hne, this]
 
-/-- with a zero total deposit no non-zero immediate minimum is covered -/
-theorem not_covers_zero {bond : Denom} {m : Coins} (h : allPos m = true) :
-    (!Coins.isZero m && Coins.covers [(bond, 0)] m) = false := by
+theorem amountOf_nonneg_of_entries {cs : Coins} (h : EntriesNonneg cs) (d : Denom) :
+    0 ≤ Coins.amountOf cs d := by
+  induction cs with
+  | nil => simp
+  | cons x rest ih =>
+    obtain ⟨d', v⟩ := x
+    have hv : 0 ≤ v := h (d', v) List.mem_cons_self
+    have := ih (fun c hc => h c (List.mem_cons_of_mem _ hc))
+    simp only [Coins.amountOf_cons]
+    split_ifs <;> omega
+
+/-- with a zero total deposit no non-zero immediate minimum is reached -/
+theorem not_reaches_zero {m : Coins} (h : allPos m = true) : reachesMin [] m = false := by
+  unfold reachesMin
   cases m with
   | nil => simp [Coins.isZero, Coins.denoms]
   | cons x rest =>
     obtain ⟨d, v⟩ := x
     have hp := amountOf_pos_head h
-    have : Coins.covers [(bond, 0)] ((d, v) :: rest) = false := by
-      have h0 : Coins.amountOf [(bond, (0 : Int))] d = 0 := by simp
-      simp only [Coins.covers, Coins.denoms, List.map_cons, List.all_cons, Bool.and_eq_false_imp,
-        decide_eq_true_eq]
-      intro hle
-      omega
+    have : Coins.covers [] ((d, v) :: rest) = false := by
+      have hd : decide (Coins.amountOf ((d, v) :: rest) d ≤ Coins.amountOf [] d) = false := by
+        apply decide_eq_false
+        rw [Coins.amountOf_nil]
+        omega
+      simp only [Coins.covers, Coins.denoms, List.map_cons, List.all_cons, hd, Bool.false_and]
     simp [this]
 
 theorem hookMsgs_zero {c : Cfg} {id : Nat} {st : Store} (msgs : List PMsg)
     (h1 : allPos st.sancMin = true) (h2 : allPos st.unsancMin = true) :
-    hookMsgs c 0 id st msgs = .ok st := by
+    hookMsgs c [] id st msgs = .ok st := by
   induction msgs with
   | nil => rfl
   | cons m rest ih =>
-    have : hookMsg c 0 id st m = .ok st := by
-      unfold hookMsg
-      simp only
-      split_ifs with hs hc hc
-      · rw [not_covers_zero h1] at hc; cases hc
-      · rfl
-      · rw [not_covers_zero h2] at hc; cases hc
-      · rfl
+    have : hookMsg c [] id st m = .ok st := by
+      unfold hookMsg immediateMin
+      cases m.isSanction
+      · simp [not_reaches_zero h2]
+      · simp [not_reaches_zero h1]
     simp only [hookMsgs, this]
     exact ih
 
@@ -95,37 +103,33 @@ theorem sendCoins_bal {s s' : State} {f t a : Addr} {amt : Coins} (hs : sendCoin
   obtain ⟨rfl, _⟩ := sendCoins_ok hs
   exact bal_move_mono hne hnn d
 
-theorem single_nonneg {bond : Denom} {x : Int} (hx : 0 ≤ x) (d : Denom) : 0 ≤ Coins.amountOf [(bond, x)] d := by
-  simp only [Coins.amountOf_cons, Coins.amountOf_nil]
-  split_ifs <;> omega
-
-theorem refundAll_bal {ds : List (Addr × Int)} {s s' : State} {a : Addr} (hs : refundAll s ds = .ok s')
-    (hne : a ≠ s.cfg.govAcct) (hnn : ∀ x ∈ ds, 0 ≤ x.2) (d : Denom) :
+theorem refundAll_bal {ds : List (Addr × Coins)} {s s' : State} {a : Addr} (hs : refundAll s ds = .ok s')
+    (hne : a ≠ s.cfg.govAcct) (hnn : ∀ x ∈ ds, EntriesNonneg x.2) (d : Denom) :
     s.ledger.bal a d ≤ s'.ledger.bal a d := by
   induction ds generalizing s with
   | nil => simp only [refundAll, Except.ok.injEq] at hs; subst hs; exact Int.le_refl _
   | cons x rest ih =>
     obtain ⟨w, v⟩ := x
     simp only [refundAll] at hs
-    cases h1 : sendCoins s s.cfg.govAcct w [(s.cfg.bond, v)] with
+    cases h1 : sendCoins s s.cfg.govAcct w v with
     | error e => simp [h1] at hs
     | ok s1 =>
       simp only [h1] at hs
-      have hv : 0 ≤ v := hnn (w, v) List.mem_cons_self
-      have k1 := sendCoins_bal h1 hne (single_nonneg hv) d
+      have hv : EntriesNonneg v := hnn (w, v) List.mem_cons_self
+      have k1 := sendCoins_bal h1 hne (amountOf_nonneg_of_entries hv) d
       obtain ⟨hs1, _⟩ := sendCoins_ok h1
       have k2 := ih hs (by rw [hs1]; exact hne) (fun x hx => hnn x (List.mem_cons_of_mem _ hx))
       exact Int.le_trans k1 k2
 
-theorem burnFromGov_bal {s : State} {a : Addr} (x : Int) (hne : a ≠ s.cfg.govAcct) (d : Denom) :
+theorem burnFromGov_bal {s : State} {a : Addr} (x : Coins) (hne : a ≠ s.cfg.govAcct) (d : Denom) :
     (burnFromGov s x).ledger.bal a d = s.ledger.bal a d := by
   unfold burnFromGov
   simp only [Ledger.bal_debit]
   have : ¬ s.cfg.govAcct = a := fun h => hne h.symm
   simp [this]
 
-theorem settle_bal {s s' : State} {burn : Bool} {ds : List (Addr × Int)} {a : Addr}
-    (hs : settle s burn ds = .ok s') (hne : a ≠ s.cfg.govAcct) (hnn : ∀ x ∈ ds, 0 ≤ x.2) (d : Denom) :
+theorem settle_bal {s s' : State} {burn : Bool} {ds : List (Addr × Coins)} {a : Addr}
+    (hs : settle s burn ds = .ok s') (hne : a ≠ s.cfg.govAcct) (hnn : ∀ x ∈ ds, EntriesNonneg x.2) (d : Denom) :
     s.ledger.bal a d ≤ s'.ledger.bal a d := by
   unfold settle at hs
   split_ifs at hs
@@ -143,9 +147,16 @@ theorem remaining_nonneg {a : Int} {n m : Nat} (ha : 0 ≤ a) (hnm : n ≤ m) (h
   have h3 : a * (m : Int) / (m : Int) = a := Int.mul_ediv_cancel a (Int.ne_of_gt hm')
   omega
 
-theorem chargeDeposits_bal {ds : List (Addr × Int)} {s s' : State} {ch ch' : Int} {a : Addr}
+theorem remainingPart_nonneg {c : Cfg} (hc : CfgOK c) {v : Coins} (hv : EntriesNonneg v) :
+    EntriesNonneg (remainingPart c v) := by
+  intro x hx
+  simp only [remainingPart, List.mem_map] at hx
+  obtain ⟨y, hy, rfl⟩ := hx
+  exact remaining_nonneg (hv y hy) hc.ratioLe hc.denPos
+
+theorem chargeDeposits_bal {ds : List (Addr × Coins)} {s s' : State} {ch ch' : Coins} {a : Addr}
     (hs : chargeDeposits s ch ds = .ok (s', ch')) (hc : CfgOK s.cfg)
-    (hne : a ≠ s.cfg.govAcct) (hnn : ∀ x ∈ ds, 0 ≤ x.2) (d : Denom) :
+    (hne : a ≠ s.cfg.govAcct) (hnn : ∀ x ∈ ds, EntriesNonneg x.2) (d : Denom) :
     s.ledger.bal a d ≤ s'.ledger.bal a d := by
   induction ds generalizing s ch with
   | nil =>
@@ -154,15 +165,14 @@ theorem chargeDeposits_bal {ds : List (Addr × Int)} {s s' : State} {ch ch' : In
   | cons x rest ih =>
     obtain ⟨w, v⟩ := x
     simp only [chargeDeposits] at hs
-    have hv : 0 ≤ v := hnn (w, v) List.mem_cons_self
+    have hv : EntriesNonneg v := hnn (w, v) List.mem_cons_self
     split_ifs at hs with h0
     · exact ih hs hc hne (fun x hx => hnn x (List.mem_cons_of_mem _ hx))
-    · cases h1 : sendCoins s s.cfg.govAcct w
-          [(s.cfg.bond, v - v * (s.cfg.cancelNum : Int) / (s.cfg.cancelDen : Int))] with
+    · cases h1 : sendCoins s s.cfg.govAcct w (remainingPart s.cfg v) with
       | error e => simp [h1] at hs
       | ok s1 =>
         simp only [h1] at hs
-        have k1 := sendCoins_bal h1 hne (single_nonneg (remaining_nonneg hv hc.ratioLe hc.denPos)) d
+        have k1 := sendCoins_bal h1 hne (amountOf_nonneg_of_entries (remainingPart_nonneg hc hv)) d
         obtain ⟨hs1, _⟩ := sendCoins_ok h1
         have k2 := ih hs (by rw [hs1]; exact hc) (by rw [hs1]; exact hne)
           (fun x hx => hnn x (List.mem_cons_of_mem _ hx))
@@ -263,7 +273,7 @@ theorem endBlocker_bal {s s' : State} {a : Addr} (h : Inv s) (hs : endBlocker s 
     exact Int.le_trans b1 b2
 
 theorem addDeposit_bal {s s' : State} {id : Nat} {who a : Addr} {amt : Coins}
-    (hs : addDeposit s id who amt = .ok s') (ha : isSanctionedAddr s.cfg s.st a = true) (d : Denom) :
+    (hpos : allPos amt = true) (hs : addDeposit s id who amt = .ok s') (ha : isSanctionedAddr s.cfg s.st a = true) (d : Denom) :
     s.ledger.bal a d ≤ s'.ledger.bal a d := by
   unfold addDeposit at hs
   cases hg : getProp s.props id with
@@ -277,19 +287,11 @@ theorem addDeposit_bal {s s' : State} {id : Nat} {who a : Addr} {amt : Coins}
       simp only [hsend] at hs
       obtain ⟨_, hwho⟩ := sendCoins_ok hsend
       have hne : a ≠ who := by rintro rfl; rw [ha] at hwho; cases hwho
-      have hpos : 0 < Coins.amountOf amt s.cfg.bond := by
-        by_cases h0 : 0 < Coins.amountOf amt s.cfg.bond
-        · exact h0
-        · simp [h0] at h3
-      have hnn : ∀ d, 0 ≤ Coins.amountOf amt d := by
-        intro d'
-        by_cases hd : d' = s.cfg.bond
-        · subst hd; omega
-        · rw [amountOf_onlyBond (by simpa using h2) hd]; exact Int.le_refl _
+      have hnn : ∀ d, 0 ≤ Coins.amountOf amt d := amountOf_nonneg_of_allPos hpos
       have k := sendCoins_bal hsend hne hnn d
       have hl : s'.ledger = s1.ledger := by
         cases hh : proposalGovHook s1.cfg s1.st
-            (some (depositedProp s.cfg s.now p who (Coins.amountOf amt s.cfg.bond))) id with
+            (some (depositedProp s.cfg s.now p who amt)) id with
         | ok st => simp only [hh, Except.ok.injEq] at hs; subst hs; rfl
         | error e => simp [hh] at hs
       rw [hl]; exact k
@@ -308,7 +310,11 @@ theorem submitProposal_bal {s s' : State} {who a : Addr} {msgs : List PMsg} {ini
     have hh : proposalGovHook s.cfg s.st (some (newProposal s who msgs exp)) s.nextId = .ok s.st :=
       hookMsgs_zero msgs h.store.sancPos h.store.unsancPos
     simp only [hh] at hs
-    exact addDeposit_bal hs ha d
+    have hpos : allPos initial = true := by
+      have : coinsValid initial = true := by simpa using h1
+      simp only [coinsValid, Bool.and_eq_true] at this
+      exact this.1
+    exact addDeposit_bal hpos hs ha d
 
 theorem cancelProposal_bal {s s' : State} {who a : Addr} {id : Nat} (h : Inv s) (hc : CfgOK s.cfg)
     (hs : cancelProposal s who id = .ok s') (hne : a ≠ s.cfg.govAcct) (d : Denom) :
@@ -320,7 +326,7 @@ theorem cancelProposal_bal {s s' : State} {who a : Addr} {id : Nat} (h : Inv s) 
     simp only [hg] at hs
     obtain ⟨hp, _⟩ := getProp_some hg
     split_ifs at hs with h1 h2 h3
-    cases hch : chargeDeposits s 0 p.deposits with
+    cases hch : chargeDeposits s [] p.deposits with
     | error e => simp [hch] at hs
     | ok r =>
       obtain ⟨s1, ch⟩ := r
@@ -344,8 +350,12 @@ theorem applyOp_bal {s s' : State} {op : Op} {a : Addr} (h : Inv s) (hc : CfgOK 
   | submit who msgs initial exp => exact submitProposal_bal h hs ha d
   | deposit who id amt =>
     simp only [applyOp] at hs
-    split_ifs at hs
-    exact addDeposit_bal hs ha d
+    split_ifs at hs with hv
+    have hpos : allPos amt = true := by
+      cases h1 : allPos amt
+      · simp [validAmt, h1] at hv
+      · rfl
+    exact addDeposit_bal hpos hs ha d
   | vote id v =>
     simp only [applyOp, addVote] at hs
     cases hg : getProp s.props id with
